@@ -5,10 +5,13 @@ import KrakenModel.Proof.C36Re
   C36  Backend name/path mapping round-trips for every name.
   Statements are about `Model.NamePath`, tied by the correspondence check to
   lib/backend/namepath/pather.go (after the two repairs recorded in known/C36.json).
-  Every theorem is for EVERY root string (any characters, any depth, with or without trailing
-  slashes, "/", "", ".", paths containing "." and ".." elements, regexp metacharacters) and every
-  valid name of the scheme (the validity predicates are supersets of the Docker repository / tag
-  grammar, of hex digests, and of clean relative paths).
+  Strings are BYTE lists (one `Char` per byte), as Go's `len` and slicing see them.  The identity theorem
+  is for every root byte string; the tag and sharded theorems are for every root whose base path is
+  valid UTF-8 (regexp.MustCompile panics otherwise; configuration strings come from YAML) — any
+  characters, any depth, with or without trailing slashes, "/", "", ".", "." / ".." elements, regexp
+  metacharacters — and every valid name of the scheme (supersets of the Docker repository / tag grammar,
+  of hex digests, and of clean relative paths).  One clause fails for the code and is a known finding:
+  a blob name that starts with a two-byte UTF-8 character (`shard_roundtrip_target`, `not_shard_roundtrip`).
 -/
 namespace KrakenModel.Spec.C36
 open KrakenModel.NamePath KrakenModel.Codec KrakenModel.Proof.C36
@@ -96,7 +99,8 @@ theorem plain_of_decide (c : List Char) (h : (decide (c ≠ []) && decide (c ≠
 /-! ### (1) docker tags -/
 
 /-- **C36 tags**: for every root and every valid `repo:tag`, the blob path is built and maps back to `repo:tag` -/
-theorem tag_roundtrip (root repo tag : List Char) (hr : validRepo repo = true) (ht : validTag tag = true) :
+theorem tag_roundtrip (root repo tag : List Char) (hutf : validUTF8 (basePath .tag root) = true)
+    (hr : validRepo repo = true) (ht : validTag tag = true) :
     ∃ bp, blobPath .tag root (repo ++ ':' :: tag) = .ok bp ∧
       nameFromBlobPath .tag root bp = .ok (repo ++ ':' :: tag) := by
   simp only [validRepo, Bool.and_eq_true] at hr
@@ -146,7 +150,7 @@ theorem tag_roundtrip (root repo tag : List Char) (hr : validRepo repo = true) (
   refine ⟨pathJoin [basePath .tag root, repo, manifestsTags, tag, currentLink],
     by simp only [blobPath, hsplit, hrne, ht1, if_false], ?_⟩
   rw [hbp]
-  simp only [nameFromBlobPath, tagName]
+  simp only [nameFromBlobPath, tagName, hutf, Bool.not_true, Bool.false_eq_true, if_false]
   have hf : (fun s => if isPrefixOf (tagLit0 (basePath .tag root)) s = true
         then twoGroups tagLit1 tagLit2 (s.drop (tagLit0 (basePath .tag root)).length) else none)
       (tagLit0 (basePath .tag root) ++ (repo ++ tagLit1 ++ tag ++ tagLit2)) = some (repo, tag) := by
@@ -157,11 +161,17 @@ theorem tag_roundtrip (root repo tag : List Char) (hr : validRepo repo = true) (
 
 /-! ### (2) sharded blobs -/
 
-/-- **C36 sharded blobs**: for every root and every valid blob name (in particular every hex digest) -/
-theorem shard_roundtrip (root name : List Char) (hv : validShardName name = true) :
+/-- **C36 sharded blobs (the part that holds)**: for every root and every blob name whose first two bytes are
+not one two-byte UTF-8 character — in particular every ASCII name and every hex digest -/
+theorem shard_roundtrip (root name : List Char) (hutf : validUTF8 (basePath .shard root) = true)
+    (hv : validShardName name = true) :
     ∃ bp, blobPath .shard root name = .ok bp ∧ nameFromBlobPath .shard root bp = .ok name := by
-  simp only [validShardName, Bool.and_eq_true, decide_eq_true_eq, bne_iff_ne, ne_eq] at hv
-  obtain ⟨⟨⟨hlen, hsl⟩, hnl⟩, hdd⟩ := hv
+  simp only [validShardName, validShardNameBytes, Bool.and_eq_true, decide_eq_true_eq, bne_iff_ne, ne_eq] at hv
+  obtain ⟨⟨⟨⟨hlen, hsl⟩, hnl⟩, hdd⟩, h2b0⟩ := hv
+  have h2b : twoByteHead name = false := by
+    cases hb : twoByteHead name with
+    | false => rfl
+    | true => rw [hb] at h2b0; cases h2b0
   have hsl' := not_contains hsl
   have hnn := no_newline hnl
   obtain ⟨a, b, rest, hname⟩ : ∃ a b rest, name = a :: b :: rest := by
@@ -205,26 +215,42 @@ theorem shard_roundtrip (root name : List Char) (hv : validShardName name = true
   refine ⟨pathJoin [basePath .shard root, sha256Dir, name.take 2, name, dataFile],
     by simp only [blobPath, hlt, if_false], ?_⟩
   rw [hbp]
-  simp only [nameFromBlobPath, shardName]
-  have hab : (a == '\n' || b == '\n') = false := by
-    have h1 : a ≠ '\n' := by
-      intro e; subst e
-      have : hasNewline name = true := by rw [hname]; simp [hasNewline]
-      rw [this] at hnn; cases hnn
-    have h2 : b ≠ '\n' := by
-      intro e; subst e
-      have : hasNewline name = true := by rw [hname]; simp [hasNewline]
-      rw [this] at hnn; cases hnn
-    simp [h1, h2]
+  simp only [nameFromBlobPath, shardName, hutf, Bool.not_true, Bool.false_eq_true, if_false]
+  have h1 : a ≠ '\n' := by
+    intro e; subst e
+    have : hasNewline name = true := by rw [hname]; simp [hasNewline]
+    rw [this] at hnn; cases hnn
+  have h2 : b ≠ '\n' := by
+    intro e; subst e
+    have : hasNewline name = true := by rw [hname]; simp [hasNewline]
+    rw [this] at hnn; cases hnn
+  have h2b' : twoByteHead (a :: b :: '/' :: (name ++ shardLit2)) = false := by
+    rw [hname] at h2b; simpa [twoByteHead] using h2b
   have hf : (fun s => if isPrefixOf (shardLit0 (basePath .shard root)) s = true then
-        (match s.drop (shardLit0 (basePath .shard root)).length with
-          | a :: b :: '/' :: r => if (a == '\n' || b == '\n') = true then none else oneGroup shardLit2 r
+        (match (dropRune (s.drop (shardLit0 (basePath .shard root)).length)).bind dropRune with
+          | some ('/' :: r) => oneGroup shardLit2 r
           | _ => none) else none)
       (shardLit0 (basePath .shard root) ++ (a :: b :: '/' :: (name ++ shardLit2))) = some name := by
-    simp only [isPrefixOf_append, if_true, List.drop_left, hab, Bool.false_eq_true, if_false]
+    simp only [isPrefixOf_append, if_true, List.drop_left, dropRune_two a b _ h2b' h1 h2]
     exact oneGroup_shard name hnne
   rw [firstSuffix_of_some _ _ _ hf]
   simp [hnn]
+
+/-- the full statement for the sharded scheme: every name longer than two bytes without '/' or newline … -/
+def shard_roundtrip_target : Prop :=
+  ∀ (root name : List Char), validUTF8 (basePath .shard root) = true → validShardNameBytes name = true →
+    ∃ bp, blobPath .shard root name = .ok bp ∧ nameFromBlobPath .shard root bp = .ok name
+
+/-- … fails for a name that starts with a two-byte character ("éab" = C3 A9 61 62): `name[:2]` is one rune, the
+inverse's `..` wants two (known finding shard-nonascii-name; no real blob name — a hex digest — is affected) -/
+theorem not_shard_roundtrip : ¬ shard_roundtrip_target := by
+  intro h
+  obtain ⟨bp, h1, h2⟩ := h ['/', 'r'] [Char.ofNat 195, Char.ofNat 169, 'a', 'b'] (by decide) (by decide)
+  have e : bp = pathJoin [basePath .shard ['/', 'r'], sha256Dir, [Char.ofNat 195, Char.ofNat 169], [Char.ofNat 195, Char.ofNat 169, 'a', 'b'], dataFile] := by
+    have : blobPath .shard ['/', 'r'] [Char.ofNat 195, Char.ofNat 169, 'a', 'b'] = .ok (pathJoin [basePath .shard ['/', 'r'], sha256Dir, [Char.ofNat 195, Char.ofNat 169], [Char.ofNat 195, Char.ofNat 169, 'a', 'b'], dataFile]) := by decide
+    rw [this] at h1; cases h1; rfl
+  rw [e] at h2
+  revert h2; decide
 
 /-! ### (3) identity -/
 
